@@ -20,7 +20,7 @@ FORBIDDEN = re.compile(r"\b(sorry|admit|native_decide|bv_decide|implemented_by)\
 
 TRUSTED_BASE = [
     "Lean 4.33.0 kernel; axioms allowed in property theorems: propext, Classical.choice, Quot.sound (audited by #print axioms on every run); no sorry/admit/native_decide/bv_decide/own axioms (grep on every run)",
-    "the hand-written Lean model (lean/HSModel/*.lean) is modelled, not verified: it is tied to /repo by (a) constant tables re-extracted from the source with ast on every run and proved equal to the model's (Props/Tables.lean), (b) the correspondence run of this check (model, abstract spec and real code on the same inputs)",
+    "the hand-written Lean model (lean/HSModel/*.lean) is modelled, not verified: it is tied to /repo by (a) translation on every run (harness/hsv/translate.py, synctext.py, clitext.py -> Generated.lean, GeneratedSync.lean): constant tables, the synchronisation text (mode sections, __init__ tables, lock-order edges, acquire sites and their guards, lists claimed per API method) and the client's dispatch chain, proved equal to / interpreted as the model's in Props/Tables.lean and Props/C20.lean — trusted there: the translators themselves (a few hundred lines of ast walking) and the reading of the four canonical acquire / release / check / refuse texts as the monitor Locks.Step; (b) the correspondence run of this check (model, abstract spec and real code on the same inputs)",
     "hashlib/OpenSSL digests; collision-freedom of the store algorithm on the identifiers and contents in play is an explicit hypothesis (NoColl) of the theorems and is asserted on every generated table",
     "POSIX: rename within one file system is an atomic replace; unlink/mkdir atomic; NamedTemporaryFile names are fresh",
     "the harness: interception layer, canonicalisation, generators (differential testing — bounded by what the generators produce; the distribution is reported in this file)",
